@@ -338,6 +338,9 @@ func (c *Ctx) writeReplay(v *Violation) string {
 		rp.Params = map[string]interface{}{}
 	}
 	rp.Params["signature"] = v.Sig
+	if rp.Repro == "" {
+		rp.Repro = fmt.Sprintf("cd /verif && ./check %s --replay %s   # rebuilds from /repo's working tree and re-executes this ONE recorded execution (no exploration); prints VIOLATION and exits 1 when the recorded clause reproduces, exits 0 when it does not", c.ID, path)
+	}
 	js, _ := json.MarshalIndent(rp, "", " ")
 	_ = os.WriteFile(path, js, 0o644)
 	return path
